@@ -1620,7 +1620,9 @@ func (d *decoderSimpleBytes) kInterfaceNaked(f *decFnInfo) (rvn reflect.Value) {
 				if bfn.ext == SelfExt {
 
 					bytes = d.sideDecodeInput(bytes, d.attachState(!d.bytes))
-					sideDecode(d.hh, &d.h.sideDecPool, func(sd decoderI) { oneOffDecode(sd, rv2i(rvn), bytes, bfn.rt, true) })
+					d.depthIncr()
+					sideDecode(d.hh, &d.h.sideDecPool, func(sd decoderI) { oneOffDecode(sd, rv2i(rvn), bytes, bfn.rt, true, d.depth) })
+					d.depthDecr()
 				} else {
 					bfn.ext.ReadExt(rv2i(rvn), bytes)
 				}
@@ -3545,7 +3547,9 @@ func (d *simpleDecDriverBytes) DecodeExt(rv interface{}, basetype reflect.Type, 
 	}
 	if ext == SelfExt {
 		xbs = d.d.sideDecodeInput(xbs, state)
-		sideDecode(d.h, &d.h.sideDecPool, func(sd decoderI) { oneOffDecode(sd, rv, xbs, basetype, true) })
+		d.d.depthIncr()
+		sideDecode(d.h, &d.h.sideDecPool, func(sd decoderI) { oneOffDecode(sd, rv, xbs, basetype, true, d.d.depth) })
+		d.d.depthDecr()
 	} else {
 		ext.ReadExt(rv, xbs)
 	}
@@ -5406,7 +5410,9 @@ func (d *decoderSimpleIO) kInterfaceNaked(f *decFnInfo) (rvn reflect.Value) {
 				if bfn.ext == SelfExt {
 
 					bytes = d.sideDecodeInput(bytes, d.attachState(!d.bytes))
-					sideDecode(d.hh, &d.h.sideDecPool, func(sd decoderI) { oneOffDecode(sd, rv2i(rvn), bytes, bfn.rt, true) })
+					d.depthIncr()
+					sideDecode(d.hh, &d.h.sideDecPool, func(sd decoderI) { oneOffDecode(sd, rv2i(rvn), bytes, bfn.rt, true, d.depth) })
+					d.depthDecr()
 				} else {
 					bfn.ext.ReadExt(rv2i(rvn), bytes)
 				}
@@ -7331,7 +7337,9 @@ func (d *simpleDecDriverIO) DecodeExt(rv interface{}, basetype reflect.Type, xta
 	}
 	if ext == SelfExt {
 		xbs = d.d.sideDecodeInput(xbs, state)
-		sideDecode(d.h, &d.h.sideDecPool, func(sd decoderI) { oneOffDecode(sd, rv, xbs, basetype, true) })
+		d.d.depthIncr()
+		sideDecode(d.h, &d.h.sideDecPool, func(sd decoderI) { oneOffDecode(sd, rv, xbs, basetype, true, d.d.depth) })
+		d.d.depthDecr()
 	} else {
 		ext.ReadExt(rv, xbs)
 	}
